@@ -792,6 +792,26 @@ static URI_INLINE int URI_FUNC(NormalizeSyntaxEngine)(URI_TYPE(Uri) * uri,
 			while (walker != NULL) {
 				if (!URI_FUNC(FixPercentEncodingMalloc)(&(walker->text.first),
 						&(walker->text.afterLast), memory)) {
+					/* Free the segment texts duplicated so far and kill the
+					 * path, the segments from walker on still point to text
+					 * that is not ours */
+					URI_TYPE(PathSegment) * ranger = uri->pathHead;
+					UriBool duplicated = URI_TRUE;
+					while (ranger != NULL) {
+						URI_TYPE(PathSegment) * const next = ranger->next;
+						if (ranger == walker) {
+							duplicated = URI_FALSE;
+						}
+						if (duplicated
+								&& (ranger->text.afterLast > ranger->text.first)) {
+							memory->free(memory, (URI_CHAR *)ranger->text.first);
+						}
+						memory->free(memory, ranger);
+						ranger = next;
+					}
+					uri->pathHead = NULL;
+					uri->pathTail = NULL;
+
 					URI_FUNC(PreventLeakage)(uri, doneMask, memory);
 					return URI_ERROR_MALLOC;
 				}
